@@ -95,6 +95,7 @@ def run(B, case, elems_per_operand):
                 for x, dop in zip(ins, dd):
                     term = O.mul(term, dop[tuple(env[c] for c in x)])
                 conds.append((B.all_eq(ps, six), B.same(term, got[oix])))
-            attained.append(conds)
+            if conds:       # an empty index space (a summed-out axis of size 0) has no index values that could attain anything: only the value (zero) is claimed
+                attained.append(conds)
         items.append(('argmax_attains', attained, None))
     return items
